@@ -128,6 +128,24 @@ MUTANTS = [
 ]
 
 
+EQ = os.path.join(HERE, "equiv")
+
+# behaviour-preserving refactors: every listed check must stay SILENT (exit 0) on them — a check that fires here is a false alarm
+EQUIV = [
+    ("eq-c12-raii-transaction", ["C12", "C09", "C19"], [os.path.join(EQ, "c12_raii_transaction.diff")], []),
+    ("eq-c20-release-in-place-then-truncate", ["C11", "C20"], [], [(CORE + "epoch_snapshots.rs", """                let removed = queue.split_off(index);
+                for (i, snap) in removed.into_iter().enumerate() {
+                    // Skip the first one (index 0) - it was already consumed by rollback
+                    if i > 0 {
+                        let _ = storage.release_group_snapshot(&snap.group_id, &snap.snapshot_name);
+                    }
+                }""", """                for snap in queue.iter().skip(index + 1) {
+                    let _ = storage.release_group_snapshot(&snap.group_id, &snap.snapshot_name);
+                }
+                queue.truncate(index);""")]),
+]
+
+
 def seeded():
     """confirmed changes written by independent sub-agents (seeded/<id>/patch.diff); expected = recorded in caught_by"""
     out = []
@@ -141,6 +159,9 @@ def seeded():
                 exp = m.get("caught_by") or []
                 out.append(("seeded-" + d, exp, [pp], []))
     return out
+
+
+KEYS = {}      # mutant -> check -> violated obligation keys (filled by run_one)
 
 
 def run_one(m, tier="quick"):
@@ -167,10 +188,20 @@ def run_one(m, tier="quick"):
             env = dict(os.environ, MDK_REPO=d, MDK_EVIDENCE_DIR=os.path.join(d, ".evidence"))
             r = subprocess.run([os.path.join(VERIF, "check"), cid, tier], capture_output=True, text=True, env=env)
             res[cid] = r.returncode
+            rp = os.path.join(d, ".evidence", "replay", "%s.json" % cid)
+            if r.returncode == 1 and os.path.exists(rp):
+                try:
+                    KEYS.setdefault(name, {})[cid] = sorted(set(v["key"] for v in json.load(open(rp))["violations"]))
+                except Exception:
+                    pass
         fired = [c for c, rc in res.items() if rc == 1]
         errors = [c for c, rc in res.items() if rc not in (0, 1)]
         if errors:
             return name, "error", "checks %s ended with an error exit" % errors, res
+        if name.startswith("eq-"):
+            if fired:
+                return name, "FALSE-ALARM", "%s fired on a behaviour-preserving refactor: %s" % (fired, KEYS.get(name)), res
+            return name, "silent", "", res
         if not expect:
             return name, "unassigned", "no expected check recorded", res
         if set(fired) == set(expect):
@@ -187,8 +218,9 @@ def main():
     ap.add_argument("--only", default="")
     ap.add_argument("-j", type=int, default=6)
     ap.add_argument("--json", default="")
+    ap.add_argument("--matrix", default="", help="write rule -> killing mutants (and rules no mutant kills) to this file")
     a = ap.parse_args()
-    ms = MUTANTS + seeded()
+    ms = MUTANTS + seeded() + EQUIV
     if a.only:
         want = set(a.only.split(","))
         ms = [m for m in ms if want & set(m[1])]
@@ -203,6 +235,20 @@ def main():
     for r in results:
         summ[r[1]] = summ.get(r[1], 0) + 1
     print("SUMMARY", json.dumps(summ))
+    if a.matrix:
+        byrule = {}
+        for mname, per in KEYS.items():
+            for cid, keys in per.items():
+                for k in keys:
+                    rule = "/".join(k.split("/")[:2])
+                    byrule.setdefault(rule, set()).add(mname)
+        allrules = set()
+        obd = os.path.join(VERIF, "evidence", "obligations")
+        for fn in sorted(os.listdir(obd)) if os.path.isdir(obd) else []:
+            for o in json.load(open(os.path.join(obd, fn))):
+                allrules.add("/".join(o["key"].split("/")[:2]))
+        json.dump({"killed_by": {r: sorted(v) for r, v in sorted(byrule.items())},
+                   "rules_without_mutant": sorted(allrules - set(byrule))}, open(a.matrix, "w"), indent=1)
     if a.json:
         json.dump([{"name": r[0], "status": r[1], "detail": r[2], "exits": r[3]} for r in results], open(a.json, "w"), indent=1)
     return 0 if not any(r[1] in ("SURVIVED", "error", "partly") for r in results) else 1
